@@ -384,6 +384,11 @@ pub fn plan(property: &str, tier: &str) -> Option<CheckSpec> {
             gc.max_parents = 1;
             gc.max_len = if quick { 3 } else { 4 };
             let nconc = b.add_concurrent(&gc, &[true, false], 2, &rules, if quick { 1 } else { 2 });
+            // attachments made by calls whose property closure itself traces (eagerly, or lazily while
+            // the library consumes the iterator it returned): the pairs belong to the call's own span
+            for c in [false, true] {
+                b.add_batch(reentrant_programs(), c, false, &rules);
+            }
             let ls = local_sequence_programs(if quick { 5 } else { 6 });
             let nls = ls.len();
             for c in [false, true] {
@@ -594,6 +599,7 @@ pub fn plan(property: &str, tier: &str) -> Option<CheckSpec> {
         }
         "C11" => {
             let rules = [Rule::Liveness, Rule::NoPanic, Rule::Ctx, Rule::Tree, Rule::NoExtra, Rule::Deliver];
+            b.add_batch(noop_parents_programs(), false, false, &rules);
             let mut g = GenCfg::base("C11");
             g.traces = vec![
                 TraceOpt { trace: u128::MAX, sampled: true, remote_parent: u64::MAX },
